@@ -16,6 +16,10 @@ def probe(ctx, f, shadow, where, case):
             ctx.fail(f"added key reported absent by check() {where}", key=k, n_keys=len(shadow))
         if k not in f:
             ctx.fail(f"added key reported absent by `in` {where}", key=k, n_keys=len(shadow))
+    if shadow and hasattr(f, "hashes"):
+        k = shadow[len(shadow) // 2]
+        if not f.check_alt(f.hashes(k)):
+            ctx.fail(f"added key reported absent by check_alt(hashes(key)) {where}", key=k)
     ctx.count("full_probes")
 
 
@@ -110,11 +114,17 @@ def wl_plain(ctx, rng, case):
                 events += 1
                 if chan in ("bytes", "path", "fileobj", "realfile", "pathlib") and not isinstance(f, P.BloomFilterOnDisk):
                     data = bl.export_bytes_via(f, chan, sc)
-                    if chan == "path":
+                    if chan in ("path", "pathlib"):
                         p2 = sc.path("load")
                         with open(p2, "wb") as fh:
                             fh.write(data)
-                        f = P.BloomFilter(filepath=p2, **bl.kw_hash(hf))
+                        from pathlib import Path
+
+                        f = P.BloomFilter(filepath=Path(p2) if chan == "pathlib" else p2, **bl.kw_hash(hf))
+                    elif chan == "realfile":
+                        f = P.BloomFilter.frombytes(memoryview(data), **bl.kw_hash(hf))
+                    elif chan == "fileobj":
+                        f = P.BloomFilter.frombytes(bytearray(data), **bl.kw_hash(hf))
                     else:
                         f = P.BloomFilter.frombytes(data, **bl.kw_hash(hf))
                 elif chan == "hex":
